@@ -1259,6 +1259,25 @@ func c06Cases(thorough bool) []*c06Case {
 			}
 		}
 	}
+	// empty audio samples (size 0) at every position of a three-sample fragment
+	for _, scheme := range []string{"cenc", "cbcs"} {
+		for _, iv := range []string{c06IVs[1], c06IVs[3]} {
+			if scheme == "cbcs" && len(iv) != 32 {
+				continue
+			}
+			for mask := 1; mask < 8; mask++ {
+				var fr [][]c06Nal
+				for k := 0; k < 3; k++ {
+					sz := 17 + 16*k
+					if mask>>uint(k)&1 == 1 {
+						sz = 0
+					}
+					fr = append(fr, []c06Nal{{Size: sz}})
+				}
+				cases = append(cases, &c06Case{Codec: "aac", Scheme: scheme, IV: iv, Key: c06Keys[0], Frags: [][][]c06Nal{fr, {{{Size: 33}}}}})
+			}
+		}
+	}
 	// extra boxes: every subset of <= 2 (thorough: 3) extras, each codec and scheme, two fragments
 	nx := len(c06ExtraNames)
 	var masks []int
@@ -1357,7 +1376,7 @@ func runC0607(c *vf.Ctx, prop string) {
 	}
 	c06Setup()
 	cases := c06Cases(thorough)
-	c.Rule = "product enumeration of clear fragmented files: codec {AVC, HEVC, AAC} x scheme {cenc, cbcs} x IV {0, ..ff, ff..ff (wrap), 8-byte, 8-byte ff..ff} x 2 keys x sample layouts (1 NAL unit: every size 1..420 (thorough: 1..1200 and around 4096 and 65536) x {non-VCL, 3 slice variants with real slice headers}; every single C15 syntax deviation (AVC and HEVC: parameter sets and slice header built with it) and every pair of slice-level deviations x 3 (thorough: 7) sizes, and for cbcs every single deviation x the first slice-data byte with 0..5 leading zero bits; 2 and 3 NAL units: all class patterns x size subsets; 39..43 protected NAL units in one sample; clear runs around 65535 and 131070 bytes) x {1 sample, chained 2+1 samples in 2 fragments} x audio frame sizes x every subset of <= 3 (thorough: 4) of 12 extra-box choices (uuid tfxd/tfrf/vendor, unknown, free, sgpd+sbgp of grouping type roll, sbgp rap; in moof and traf; before/after trun and mfhd). Each file is encrypted through DecodeFile/InitProtect/EncryptFragment/Encode and (C06) decrypted through DecodeFile/DecryptInit/DecryptSegment/Encode. C07 reads the encrypted bytes with ref/boxwalk: sub-sample partition, clear/protected placement against the generator's NAL map and slice header sizes, saiz/saio against the senc entries, IV progression, and ref/cencref (own CTR and CBC-pattern modes over the AES block primitive, NIST-vector self-test) on every sample; everything else in the fragment compared box by box with the clear input. C06 reads the decrypted bytes with ref/fragref: every sample byte-for-byte, size/duration/flags/cto/decode time, sample entry type, and the list of all non-protection boxes (trun data_offset checked through the sample bytes)."
+	c.Rule = "product enumeration of clear fragmented files: codec {AVC, HEVC, AAC} x scheme {cenc, cbcs} x IV {0, ..ff, ff..ff (wrap), 8-byte, 8-byte ff..ff} x 2 keys x sample layouts (1 NAL unit: every size 1..420 (thorough: 1..1200 and around 4096 and 65536) x {non-VCL, 3 slice variants with real slice headers}; every single C15 syntax deviation (AVC and HEVC: parameter sets and slice header built with it) and every pair of slice-level deviations x 3 (thorough: 7) sizes, and for cbcs every single deviation x the first slice-data byte with 0..5 leading zero bits; 2 and 3 NAL units: all class patterns x size subsets; 39..43 protected NAL units in one sample; clear runs around 65535 and 131070 bytes) x {1 sample, chained 2+1 samples in 2 fragments} x audio frame sizes (and empty audio samples at every position of a three-sample fragment) x every subset of <= 3 (thorough: 4) of 12 extra-box choices (uuid tfxd/tfrf/vendor, unknown, free, sgpd+sbgp of grouping type roll, sbgp rap; in moof and traf; before/after trun and mfhd). Each file is encrypted through DecodeFile/InitProtect/EncryptFragment/Encode and (C06) decrypted through DecodeFile/DecryptInit/DecryptSegment/Encode. C07 reads the encrypted bytes with ref/boxwalk: sub-sample partition, clear/protected placement against the generator's NAL map and slice header sizes, saiz/saio against the senc entries, IV progression, and ref/cencref (own CTR and CBC-pattern modes over the AES block primitive, NIST-vector self-test) on every sample; everything else in the fragment compared box by box with the clear input. C06 reads the decrypted bytes with ref/fragref: every sample byte-for-byte, size/duration/flags/cto/decode time, sample entry type, and the list of all non-protection boxes (trun data_offset checked through the sample bytes)."
 	c.Bound = fmt.Sprintf("%d cases (%s)", len(cases), c.Tier)
 	// the command-line tools' own encryptFile / decryptFile (overlay drivers): every 4th case (quick), all (thorough)
 	nw := 16
